@@ -28,6 +28,8 @@ type c07Case struct {
 	Kind string      `json:"kind"`
 	Raw  vstat.Bytes `json:"raw"`
 	Mut  gen.Mut     `json:"mut"`
+	// BadPid (kind bad-utf8): the ill-formed protocol id carried by an otherwise well-framed header (empty: ff fe)
+	BadPid vstat.Bytes `json:"bad_pid,omitempty"`
 }
 
 var c07Kinds = []string{"random", "overlong-varint", "len-zero", "len-over", "len-huge", "truncated", "not-proto", "empty-pid", "bad-utf8", "inner-overrun", "inner-overrun"}
@@ -54,6 +56,9 @@ func genC07(t *rapid.T) c07Case {
 		c.Raw = rapid.SliceOfN(rapid.Byte(), 0, 40).Draw(t, "raw")
 		c.Mut = gen.GenMut(t, "mut")
 		c.PidLen = rapid.IntRange(1, 60).Draw(t, "pidlen")
+		if c.Kind == "bad-utf8" {
+			c.BadPid = []byte(gen.IllFormedUTF8(t, "badpid"))
+		}
 	}
 	return c
 }
@@ -186,7 +191,11 @@ func checkC07(c c07Case) (o vstat.Outcome) {
 		stream = []byte{0x02, 0x0a, 0x00, 0x00, 0x00}
 		mustErr, idInvalid = false, true
 	case "bad-utf8":
-		stream = []byte{0x04, 0x0a, 0x02, 0xff, 0xfe}
+		bad := []byte(c.BadPid)
+		if len(bad) == 0 {
+			bad = []byte{0xff, 0xfe}
+		}
+		stream = append([]byte{byte(len(bad) + 2), 0x0a, byte(len(bad))}, bad...)
 		mustErr, idInvalid = false, true
 	}
 	sr := &scriptedRWC{data: stream, sched: c.Sched, withData: c.EOFData}
